@@ -23,6 +23,7 @@
 #include <string>        // for string, char_traits, operator<<
 #include <utility>       // for move
 #include "abstractio.h"  // for DataAccess, SECTOR_BYTES
+#include "cleanup.h"     // for ostream_flag_saver
 #include "dfstypes.h"    // for sector_count
 #include "exceptions.h"  // for BadFileSystem
 #include "geometry.h"    // for Encoding, Geometry, Encoding::FM
@@ -94,9 +95,14 @@ namespace
 		  present = false;
 		  fill = 5;
 		  // TODO: provide infrastructure for issuing warnings
-		  std::cerr << "MMB entry " << i << " has unexpected type 0x"
-			    << std::setw(2) << std::uppercase << std::setbase(16)
-			    << entry[0x0F] << "\n";
+		  {
+		    // Do not leave std::cerr printing numbers in hex
+		    // (--show-config prints drive numbers there later).
+		    ostream_flag_saver restore_cerr_flags(std::cerr);
+		    std::cerr << "MMB entry " << i << " has unexpected type 0x"
+			      << std::setw(2) << std::uppercase << std::setbase(16)
+			      << static_cast<unsigned int>(entry[0x0F]) << "\n";
+		  }
 		  break;
 		}
 	      std::ostringstream ss;
